@@ -5,8 +5,13 @@
 //! optimum for that role's colour: EightBit against the xterm palette placed by the library's own
 //! sRGB->linear conversion (tolerance 1e-6 in distance) and against the exact model over the typed tables;
 //! Gray against the nearest of the four levels by luma (no underline colour may be emitted); TrueColor
-//! channel by channel.  A panic of the encoder is a violation.  tables.json = the numbers of
-//! Gen/TabColor.v as extracted by the translator.  Prints one JSON object.
+//! channel by channel.  A panic of the encoder is a violation.  Grey depth additionally: the level must not
+//! decrease when the exact luma increases by more than the tolerance (monotonicity over ALL colours).
+//! tables.json = the numbers of Gen/TabColor.v as extracted by the translator.  Prints one JSON object.
+//!
+//! This file is an UNPROVED second implementation of the C20 predicate (f64 square roots for the excess,
+//! separable minimum over the cube).  `judge` gives its verdict for one case; harness/src/c20.rs hands that
+//! verdict to Coq, where it must equal the verdict of the Coq predicate on every sampled case.
 use serde_json::{json, Value};
 use surf_n_term::encoder::{ColorDepth, Encoder, TTYEncoder};
 use surf_n_term::{FaceModify, TerminalCaps, TerminalCommand, RGBA};
@@ -24,7 +29,7 @@ fn params(out: &[u8]) -> Option<Vec<u64>> {
 }
 
 #[derive(Clone)]
-struct Tables {
+pub struct Tables {
     den: i128,
     luma_den: i128,
     cube: Vec<i128>,
@@ -33,6 +38,35 @@ struct Tables {
     levels: Vec<i128>,
     xcube: Vec<i128>,
     xgreys: Vec<i128>,
+}
+
+impl Tables {
+    pub fn load(path: &str) -> Result<Tables, String> {
+        let tables: Value = std::fs::read_to_string(path)
+            .ok()
+            .and_then(|s| serde_json::from_str(&s).ok())
+            .ok_or_else(|| format!("cannot read {}", path))?;
+        let srgb = ints(&tables["srgb"]);
+        if srgb.len() != 256 {
+            return Err("unexpected table sizes".into());
+        }
+        let one = |k: &str| ints(&tables[k]).first().copied().ok_or_else(|| format!("missing {}", k));
+        let t = Tables {
+            den: one("den")?,
+            luma_den: one("luma_den")?,
+            cube: ints(&tables["cube"]),
+            greys: ints(&tables["greys"]),
+            levels: ints(&tables["gray_levels"]),
+            // the palette entries themselves, placed by the library's own conversion of the xterm levels
+            xcube: [0usize, 95, 135, 175, 215, 255].iter().map(|l| srgb[*l]).collect(),
+            xgreys: (0..24usize).map(|k| srgb[8 + 10 * k]).collect(),
+            srgb,
+        };
+        if t.cube.len() != 6 || t.greys.len() != 24 || t.levels.len() != 4 || t.den <= 0 || t.luma_den <= 0 {
+            return Err("unexpected table sizes".into());
+        }
+        Ok(t)
+    }
 }
 
 #[derive(Default)]
@@ -44,20 +78,166 @@ struct Acc {
     worst_at: Option<[u64; 4]>,
     violations: Vec<Value>,
     near_list: Vec<Value>,
+    model_diff_list: Vec<Value>,
+    /// grey depth, foreground role: per exact luma value the lowest / highest (level << 24 | colour) seen
+    lo: Vec<u32>,
+    hi: Vec<u32>,
 }
 
 const TOL: f64 = 1e-6;
 const ROLES: [&str; 3] = ["fg", "bg", "underline"];
+pub type Cols = [[u8; 3]; 3];
 
 fn sq(x: i128) -> i128 {
     x * x
 }
 
-fn encode(enc: &mut TTYEncoder, out: &mut Vec<u8>, cols: [[u8; 3]; 3]) -> bool {
-    out.clear();
+pub fn roles_of(c: [u8; 3]) -> Cols {
+    [c, [c[1], c[2], c[0]], [c[2], c[0], c[1]]]
+}
+
+pub fn command(cols: Cols) -> TerminalCommand {
     let c = |k: usize| Some(RGBA::new(cols[k][0], cols[k][1], cols[k][2], 255));
-    let cmd = TerminalCommand::FaceModify(FaceModify { fg: c(0), bg: c(1), underline_color: c(2), ..FaceModify::default() });
+    TerminalCommand::FaceModify(FaceModify { fg: c(0), bg: c(1), underline_color: c(2), ..FaceModify::default() })
+}
+
+fn encode(enc: &mut TTYEncoder, out: &mut Vec<u8>, cols: Cols) -> bool {
+    out.clear();
+    let cmd = command(cols);
     std::panic::catch_unwind(std::panic::AssertUnwindSafe(|| enc.encode(&mut *out, cmd).is_ok())).unwrap_or(false)
+}
+
+fn bad(a: &mut Acc, depth: &str, role: &str, c: [u8; 3], first: [u8; 3], what: Value) {
+    if a.violations.len() < 10 {
+        a.violations.push(json!({"depth": depth, "kind": "sweep", "role": role, "c": c, "first": first, "observed": what}));
+    }
+}
+
+/// 256 colours: every role's index against its own colour.  Returns whether the property holds.
+fn check_256(t: &Tables, cols: Cols, ok: bool, out: &[u8], a: &mut Acc) -> bool {
+    let mut holds = true;
+    match (ok, params(out)) {
+        (true, Some(p)) if p.len() == 9 && [p[0], p[1], p[3], p[4], p[6], p[7]] == [38, 5, 48, 5, 58, 5] => {
+            for k in 0..3 {
+                let c = cols[k];
+                let n = p[3 * k + 2] as usize;
+                if !(16..256).contains(&n) {
+                    bad(a, "256", ROLES[k], c, cols[0], json!(n));
+                    holds = false;
+                    continue;
+                }
+                let v = [t.srgb[c[0] as usize], t.srgb[c[1] as usize], t.srgb[c[2] as usize]];
+                let d2 = |e: [i128; 3]| sq(v[0] - e[0]) + sq(v[1] - e[1]) + sq(v[2] - e[2]);
+                let pick = |cube: &Vec<i128>, greys: &Vec<i128>| -> [i128; 3] {
+                    if n < 232 {
+                        let m = n - 16;
+                        [cube[m / 36], cube[(m / 6) % 6], cube[m % 6]]
+                    } else {
+                        [greys[n - 232]; 3]
+                    }
+                };
+                // exact optimum: the cube minimum separates per channel, greys are scanned
+                let best = |cube: &Vec<i128>, greys: &Vec<i128>| -> i128 {
+                    let chan = |x: i128| cube.iter().map(|c| sq(x - c)).min().unwrap();
+                    (chan(v[0]) + chan(v[1]) + chan(v[2])).min(greys.iter().map(|t| d2([*t, *t, *t])).min().unwrap())
+                };
+                if d2(pick(&t.cube, &t.greys)) != best(&t.cube, &t.greys) {
+                    // not an exact optimum over the typed tables: differs from the exact model (up to exact ties)
+                    a.model_diff += 1;
+                    if a.model_diff_list.len() < 10 {
+                        a.model_diff_list.push(json!({"depth": "256", "kind": "model-diff", "role": ROLES[k], "c": c, "index": n}));
+                    }
+                }
+                let (di, xbest) = (d2(pick(&t.xcube, &t.xgreys)), best(&t.xcube, &t.xgreys));
+                if di != xbest {
+                    let excess = ((di as f64).sqrt() - (xbest as f64).sqrt()) / t.den as f64;
+                    a.near += 1;
+                    if k == 0 && a.near_list.len() < 64 {
+                        a.near_list.push(json!({"depth": "256", "kind": "near-tie", "c": c}));
+                    }
+                    if excess > a.worst {
+                        a.worst = excess;
+                        a.worst_at = Some([c[0] as u64, c[1] as u64, c[2] as u64, n as u64]);
+                    }
+                    if excess > TOL {
+                        bad(a, "256", ROLES[k], c, cols[0], json!({"index": n, "excess": excess}));
+                        holds = false;
+                    }
+                }
+            }
+        }
+        _ => {
+            bad(a, "256", "all", cols[0], cols[0], json!(String::from_utf8_lossy(out)));
+            holds = false;
+        }
+    }
+    holds
+}
+
+fn luma_z(c: [u8; 3]) -> i128 {
+    2126 * c[0] as i128 + 7152 * c[1] as i128 + 722 * c[2] as i128
+}
+
+/// grey depth: fg code, bg code, no underline colour.  Returns (property holds, level of the fg role).
+fn check_gray(t: &Tables, cols: Cols, ok: bool, out: &[u8], a: &mut Acc) -> (bool, Option<usize>) {
+    let mut holds = true;
+    let mut fg_level = None;
+    match (ok, params(out)) {
+        (true, Some(p)) if p.len() == 2 => {
+            for k in 0..2 {
+                let c = cols[k];
+                let code = if k == 0 { p[0] } else { p[1].wrapping_sub(10) };
+                let level = match code {
+                    30 => Some(0usize),
+                    90 => Some(1),
+                    37 => Some(2),
+                    97 => Some(3),
+                    _ => None,
+                };
+                if k == 0 {
+                    fg_level = level;
+                }
+                let lz = luma_z(c);
+                let best_l = t.levels.iter().map(|l| (lz - l).abs()).min().unwrap();
+                match level {
+                    Some(l) if ((lz - t.levels[l]).abs() - best_l) as f64 / t.luma_den as f64 <= TOL => {}
+                    _ => {
+                        bad(a, "gray", ROLES[k], c, cols[0], json!(p[k]));
+                        holds = false;
+                    }
+                }
+            }
+        }
+        _ => {
+            bad(a, "gray", "all", cols[0], cols[0], json!(String::from_utf8_lossy(out)));
+            holds = false;
+        }
+    }
+    (holds, fg_level)
+}
+
+fn check_true(cols: Cols, ok: bool, out: &[u8], a: &mut Acc) -> bool {
+    let want: Vec<u64> = (0..3)
+        .flat_map(|k| vec![[38u64, 48, 58][k], 2, cols[k][0] as u64, cols[k][1] as u64, cols[k][2] as u64])
+        .collect();
+    if !ok || params(out) != Some(want) {
+        bad(a, "true", "all", cols[0], cols[0], json!(String::from_utf8_lossy(out)));
+        return false;
+    }
+    true
+}
+
+/// The verdict of this file's predicate for one case: `out` = bytes the encoder produced (None = panic)
+/// for `command(roles_of(c))` under `depth` ("256" | "gray" | "true").
+pub fn judge(t: &Tables, depth: &str, c: [u8; 3], out: Option<&[u8]>) -> bool {
+    let mut a = Acc::default();
+    let cols = roles_of(c);
+    let (ok, bytes) = (out.is_some(), out.unwrap_or(&[]));
+    match depth {
+        "256" => check_256(t, cols, ok, bytes, &mut a),
+        "gray" => check_gray(t, cols, ok, bytes, &mut a).0,
+        _ => check_true(cols, ok, bytes, &mut a),
+    }
 }
 
 fn sweep(t: &Tables, lo: u32, hi: u32, stride: u32) -> Acc {
@@ -66,100 +246,33 @@ fn sweep(t: &Tables, lo: u32, hi: u32, stride: u32) -> Acc {
     let mut encg = TTYEncoder::new(caps(ColorDepth::Gray));
     let mut enct = TTYEncoder::new(caps(ColorDepth::TrueColor));
     let mut out = Vec::new();
-    let mut a = Acc::default();
+    let n_luma = t.luma_den as usize + 1;
+    let mut a = Acc { lo: vec![u32::MAX; n_luma], hi: vec![0; n_luma], ..Acc::default() };
     let mut code = lo;
     while code < hi {
-        let (r, g, b) = ((code >> 16) as u8, (code >> 8) as u8, code as u8);
+        let c = [(code >> 16) as u8, (code >> 8) as u8, code as u8];
+        let cols = roles_of(c);
+        let ok = encode(&mut enc256, &mut out, cols);
+        check_256(t, cols, ok, &out, &mut a);
+        let ok = encode(&mut encg, &mut out, cols);
+        if let (_, Some(level)) = check_gray(t, cols, ok, &out, &mut a) {
+            let lz = luma_z(c) as usize;
+            if lz < n_luma {
+                let packed = ((level as u32) << 24) | code;
+                a.lo[lz] = a.lo[lz].min(packed);
+                a.hi[lz] = a.hi[lz].max(packed);
+            }
+        }
+        let ok = encode(&mut enct, &mut out, cols);
+        check_true(cols, ok, &out, &mut a);
         code += stride;
         a.checked += 1;
-        let cols = [[r, g, b], [g, b, r], [b, r, g]];
-        let mut bad = |a: &mut Acc, depth: &str, role: &str, c: [u8; 3], what: Value| {
-            if a.violations.len() < 10 {
-                a.violations.push(json!({"depth": depth, "kind": "sweep", "role": role, "c": c, "first": [r, g, b], "observed": what}));
-            }
-        };
-        // ---- 256 colours
-        let ok = encode(&mut enc256, &mut out, cols);
-        match (ok, params(&out)) {
-            (true, Some(p)) if p.len() == 9 && [p[0], p[1], p[3], p[4], p[6], p[7]] == [38, 5, 48, 5, 58, 5] => {
-                for k in 0..3 {
-                    let c = cols[k];
-                    let n = p[3 * k + 2] as usize;
-                    if !(16..256).contains(&n) {
-                        bad(&mut a, "256", ROLES[k], c, json!(n));
-                        continue;
-                    }
-                    let v = [t.srgb[c[0] as usize], t.srgb[c[1] as usize], t.srgb[c[2] as usize]];
-                    let d2 = |e: [i128; 3]| sq(v[0] - e[0]) + sq(v[1] - e[1]) + sq(v[2] - e[2]);
-                    let pick = |cube: &Vec<i128>, greys: &Vec<i128>| -> [i128; 3] {
-                        if n < 232 {
-                            let m = n - 16;
-                            [cube[m / 36], cube[(m / 6) % 6], cube[m % 6]]
-                        } else {
-                            [greys[n - 232]; 3]
-                        }
-                    };
-                    // exact optimum: the cube minimum separates per channel, greys are scanned
-                    let best = |cube: &Vec<i128>, greys: &Vec<i128>| -> i128 {
-                        let chan = |x: i128| cube.iter().map(|c| sq(x - c)).min().unwrap();
-                        (chan(v[0]) + chan(v[1]) + chan(v[2])).min(greys.iter().map(|t| d2([*t, *t, *t])).min().unwrap())
-                    };
-                    if d2(pick(&t.cube, &t.greys)) != best(&t.cube, &t.greys) {
-                        a.model_diff += 1; // not the exact optimum over the typed tables (f32 rounding)
-                    }
-                    let (di, xbest) = (d2(pick(&t.xcube, &t.xgreys)), best(&t.xcube, &t.xgreys));
-                    if di != xbest {
-                        let excess = ((di as f64).sqrt() - (xbest as f64).sqrt()) / t.den as f64;
-                        a.near += 1;
-                        if k == 0 && a.near_list.len() < 64 {
-                            a.near_list.push(json!({"depth": "256", "kind": "near-tie", "c": c}));
-                        }
-                        if excess > a.worst {
-                            a.worst = excess;
-                            a.worst_at = Some([c[0] as u64, c[1] as u64, c[2] as u64, n as u64]);
-                        }
-                        if excess > TOL {
-                            bad(&mut a, "256", ROLES[k], c, json!({"index": n, "excess": excess}));
-                        }
-                    }
-                }
-            }
-            _ => bad(&mut a, "256", "all", cols[0], json!(String::from_utf8_lossy(&out))),
-        }
-        // ---- grey depth: fg code, bg code; no underline colour
-        let ok = encode(&mut encg, &mut out, cols);
-        match (ok, params(&out)) {
-            (true, Some(p)) if p.len() == 2 => {
-                for k in 0..2 {
-                    let c = cols[k];
-                    let code = if k == 0 { p[0] } else { p[1].wrapping_sub(10) };
-                    let level = match code {
-                        30 => Some(0usize),
-                        90 => Some(1),
-                        37 => Some(2),
-                        97 => Some(3),
-                        _ => None,
-                    };
-                    let lz = 2126 * c[0] as i128 + 7152 * c[1] as i128 + 722 * c[2] as i128;
-                    let best_l = t.levels.iter().map(|l| (lz - l).abs()).min().unwrap();
-                    match level {
-                        Some(l) if ((lz - t.levels[l]).abs() - best_l) as f64 / t.luma_den as f64 <= TOL => {}
-                        _ => bad(&mut a, "gray", ROLES[k], c, json!(p[k])),
-                    }
-                }
-            }
-            _ => bad(&mut a, "gray", "all", cols[0], json!(String::from_utf8_lossy(&out))),
-        }
-        // ---- true colour
-        let ok = encode(&mut enct, &mut out, cols);
-        let want: Vec<u64> = (0..3)
-            .flat_map(|k| vec![[38u64, 48, 58][k], 2, cols[k][0] as u64, cols[k][1] as u64, cols[k][2] as u64])
-            .collect();
-        if !ok || params(&out) != Some(want) {
-            bad(&mut a, "true", "all", cols[0], json!(String::from_utf8_lossy(&out)));
-        }
     }
     a
+}
+
+fn rgb(packed: u32) -> [u32; 3] {
+    [(packed >> 16) & 255, (packed >> 8) & 255, packed & 255]
 }
 
 pub fn main(args: &[String]) -> i32 {
@@ -167,35 +280,21 @@ pub fn main(args: &[String]) -> i32 {
         eprintln!("usage: tool c20sweep tables.json stride [threads]");
         return 2;
     }
-    let tables: Value = match std::fs::read_to_string(&args[0]).ok().and_then(|s| serde_json::from_str(&s).ok()) {
-        Some(v) => v,
-        None => {
-            eprintln!("cannot read {}", args[0]);
+    let t = match Tables::load(&args[0]) {
+        Ok(t) => t,
+        Err(e) => {
+            eprintln!("{}", e);
             return 2;
         }
     };
-    let stride: u32 = args[1].parse().unwrap_or(7).max(1);
-    let threads: u32 = args.get(2).and_then(|s| s.parse().ok()).unwrap_or(8).clamp(1, 64);
-    let srgb = ints(&tables["srgb"]);
-    if srgb.len() != 256 {
-        eprintln!("unexpected table sizes");
-        return 2;
-    }
-    let t = Tables {
-        den: ints(&tables["den"])[0],
-        luma_den: ints(&tables["luma_den"])[0],
-        cube: ints(&tables["cube"]),
-        greys: ints(&tables["greys"]),
-        levels: ints(&tables["gray_levels"]),
-        // the palette entries themselves, placed by the library's own conversion of the xterm levels
-        xcube: [0usize, 95, 135, 175, 215, 255].iter().map(|l| srgb[*l]).collect(),
-        xgreys: (0..24usize).map(|k| srgb[8 + 10 * k]).collect(),
-        srgb,
+    let stride: u32 = match args[1].parse() {
+        Ok(s) if s >= 1 => s,
+        _ => {
+            eprintln!("bad stride {:?}", args[1]);
+            return 2;
+        }
     };
-    if t.cube.len() != 6 || t.greys.len() != 24 || t.levels.len() != 4 {
-        eprintln!("unexpected table sizes");
-        return 2;
-    }
+    let threads: u32 = args.get(2).and_then(|s| s.parse().ok()).unwrap_or(8).clamp(1, 64);
     std::panic::set_hook(Box::new(|_| {}));
     // contiguous blocks whose first element is a multiple of the stride
     let total: u32 = 1 << 24;
@@ -207,7 +306,8 @@ pub fn main(args: &[String]) -> i32 {
             std::thread::spawn(move || sweep(&t, lo, hi, stride))
         })
         .collect();
-    let mut acc = Acc::default();
+    let n_luma = t.luma_den as usize + 1;
+    let mut acc = Acc { lo: vec![u32::MAX; n_luma], hi: vec![0; n_luma], ..Acc::default() };
     for h in handles {
         match h.join() {
             Ok(a) => {
@@ -220,16 +320,67 @@ pub fn main(args: &[String]) -> i32 {
                 }
                 acc.violations.extend(a.violations);
                 acc.near_list.extend(a.near_list);
+                acc.model_diff_list.extend(a.model_diff_list);
+                for k in 0..n_luma {
+                    acc.lo[k] = acc.lo[k].min(a.lo[k]);
+                    acc.hi[k] = acc.hi[k].max(a.hi[k]);
+                }
             }
             Err(_) => acc.violations.push(json!({"depth": "?", "kind": "sweep", "observed": "worker thread died"})),
+        }
+    }
+    // grey depth: the level is monotone in the exact luma, up to the tolerance.
+    // first[k] = the smallest luma (and a colour) at which a level >= k was chosen
+    let mut first: [Option<(usize, u32)>; 4] = [None; 4];
+    let (mut split_lumas, mut inversions_within_tol, mut worst_inversion) = (0u64, 0u64, 0f64);
+    let mut split_examples: Vec<Value> = vec![];
+    let mut inversion_examples: Vec<Value> = vec![];
+    for l in 0..n_luma {
+        if acc.lo[l] == u32::MAX {
+            continue;
+        }
+        let (lo_level, hi_level) = ((acc.lo[l] >> 24) as usize, (acc.hi[l] >> 24) as usize);
+        if lo_level != hi_level {
+            split_lumas += 1;
+            if split_examples.len() < 64 {
+                split_examples.push(json!({"luma_z": l, "low": {"c": rgb(acc.lo[l]), "level": lo_level}, "high": {"c": rgb(acc.hi[l]), "level": hi_level}}));
+            }
+        }
+        for k in (lo_level + 1)..4 {
+            if let Some((l0, c0)) = first[k] {
+                // a colour of smaller luma l0 got level >= k, this one (luma l > l0) a lower level
+                let gap = (l - l0) as f64 / t.luma_den as f64;
+                if gap > TOL {
+                    if acc.violations.len() < 10 {
+                        acc.violations.push(json!({"depth": "gray", "kind": "sweep", "role": "fg", "c": rgb(acc.lo[l]), "first": rgb(acc.lo[l]),
+                            "observed": {"monotonicity": "level decreases while luma increases by more than 1e-6",
+                                         "darker_colour": rgb(c0), "its_level_at_least": k, "level": lo_level, "luma_gap": gap}}));
+                    }
+                } else {
+                    inversions_within_tol += 1;
+                    worst_inversion = worst_inversion.max(gap);
+                    if inversion_examples.len() < 64 {
+                        inversion_examples.push(json!({"darker": rgb(c0), "darker_level_at_least": k, "brighter": rgb(acc.lo[l]), "level": lo_level, "luma_gap": gap}));
+                    }
+                }
+            }
+        }
+        for k in 1..=hi_level {
+            if first[k].is_none() {
+                first[k] = Some((l, acc.hi[l] & 0xff_ffff));
+            }
         }
     }
     acc.violations.truncate(10);
     println!(
         "{}",
         json!({"checked": acc.checked, "stride": stride, "roles": ROLES, "near_ties": acc.near,
-               "differs_from_exact_model": acc.model_diff, "worst_excess": acc.worst, "worst_at": acc.worst_at,
-               "tolerance": TOL, "violations": acc.violations, "near_tie_colours": acc.near_list})
+               "differs_from_exact_model": acc.model_diff, "model_diff_examples": acc.model_diff_list,
+               "worst_excess": acc.worst, "worst_at": acc.worst_at,
+               "tolerance": TOL, "violations": acc.violations, "near_tie_colours": acc.near_list,
+               "gray_lumas_with_two_levels": split_lumas, "gray_split_examples": split_examples,
+               "gray_inversions_within_tolerance": inversions_within_tol, "gray_worst_inversion_gap": worst_inversion,
+               "gray_inversion_examples": inversion_examples})
     );
     0
 }
